@@ -401,3 +401,29 @@ def rule_fileinfo_groups(ctx):
             ctx.holds("ANINFO", key, f.where(g[4]), "%s -> *%s, one type throughout" % (NAMES.get(K, K), sorted(outs)[0]), nontrivial=True)
     ctx.floor("ANINFO", 4, n, "(count groups of ANfileinfo)")
     return n
+
+
+def rule_pending_ref_checked(ctx):
+    """PENDINGREF (C11): Htagnewref answers from the directory: it keeps returning the same reference until a descriptor with that
+    reference has been written.  An annotation is entered into the in-memory tree at ANcreate and written only at ANwriteann, so
+    ANIcreate must step over references that annotations of the same type already hold in the tree before it adds the new entry
+    (a tbbtdfind on `an_tree` between the Htagnewref calls and ANIaddentry); otherwise a second ANcreate before the first write
+    fails with a duplicate key."""
+    prog = ctx.prog
+    f = prog.func("ANIcreate")
+    key = "PENDINGREF:ANIcreate"
+    if f is None:
+        ctx.unrecognised("PENDINGREF", key, "-", "ANIcreate not found")
+        return 0
+    news = [c[5] for _b, _i, _s, c in f.calls() if c[1] == "Htagnewref"]
+    adds = [c[5] for _b, _i, _s, c in f.calls() if c[1] == "ANIaddentry"]
+    finds = [c[5] for _b, _i, _s, c in f.calls() if c[1] == "tbbtdfind" and c[3] and any(y[0] == "mem" and y[2] == "an_tree" for y in walk(c[3][0], True))]
+    if not news or not adds:
+        ctx.unrecognised("PENDINGREF", key, f.where(), "ANIcreate no longer takes its reference from Htagnewref / adds the entry with ANIaddentry")
+        return 0
+    if any(max(news) < l < min(adds) for l in finds):
+        ctx.holds("PENDINGREF", key, f.where(min(finds)), "the reference is looked up in the annotation tree before the entry is added", nontrivial=True)
+    else:
+        ctx.violated("PENDINGREF", key, f.where(min(adds)), "the reference Htagnewref returned goes into the annotation tree without a look-up for annotations that hold it in memory only: "
+                     "a second ANcreate of the same type before the first ANwriteann fails")
+    return 1
